@@ -37,9 +37,37 @@ impl<T: ?Sized + AsRef<str>> PartialEq<T> for Ident {
     fn eq(&self, o: &T) -> bool { self.text() == o.as_ref().as_bytes() }
 }
 
-/// any token tree (the scanner never looks inside one)
+/// harness-side token tree descriptor (same #[repr(C)] layout as tokens.rs::Tt): kind 0 identifier, 1 punct, 2 literal, 3 group
+#[derive(Clone, Copy)]
+#[repr(C)]
+pub struct RawTt { pub kind: u8, pub ch: u8, pub joint: bool, pub keyword: bool }
+
 #[derive(Clone, Copy, Debug)]
-pub struct TokenTree { pub idx: u32 }
+pub struct Group { pub idx: u32, pub open: u8 }
+#[derive(Clone, Copy, Debug)]
+pub struct Literal { pub idx: u32 }
+
+/// a token tree of the harness's token array (the scanner never looks inside a group)
+#[derive(Clone, Copy, Debug)]
+pub enum TokenTree { Group(Group), Ident(Ident), Punct(Punct), Literal(Literal) }
+impl TokenTree {
+    pub fn idx(&self) -> u32 {
+        match self { TokenTree::Group(g) => g.idx, TokenTree::Ident(i) => i.idx, TokenTree::Punct(p) => p.idx, TokenTree::Literal(l) => l.idx }
+    }
+    /// the token tree at position `idx` of `toks`
+    pub fn of(toks: &[RawTt], idx: usize) -> TokenTree {
+        let t = &toks[idx];
+        match t.kind {
+            0 => TokenTree::Ident(Ident { idx: idx as u32, keyword: t.keyword, text: &t.ch as *const u8, text_len: 1 }),
+            1 => TokenTree::Punct(Punct { ch: t.ch as char, spacing: if t.joint { Spacing::Joint } else { Spacing::Alone }, idx: idx as u32 }),
+            2 => TokenTree::Literal(Literal { idx: idx as u32 }),
+            _ => TokenTree::Group(Group { idx: idx as u32, open: t.ch }),
+        }
+    }
+}
+/// the token array the current scan runs over (set by `syn::parse::ParseBuffer::new`): lets a `TokenStream`, which only records indices,
+/// hand out proper token trees again when it is iterated
+pub static mut TOKENS: (*const RawTt, usize) = (core::ptr::null(), 0);
 
 #[derive(Clone, Copy, Debug)]
 pub struct TokenStream { pub first: u32, pub n: u32, pub in_order: bool }
@@ -55,7 +83,13 @@ pub struct IntoIter { cur: u32, end: u32 }
 impl Iterator for IntoIter {
     type Item = TokenTree;
     fn next(&mut self) -> Option<TokenTree> {
-        if self.cur < self.end { self.cur += 1; Some(TokenTree { idx: self.cur - 1 }) } else { None }
+        if self.cur < self.end {
+            self.cur += 1;
+            let toks = unsafe { core::slice::from_raw_parts(TOKENS.0, TOKENS.1) };
+            let i = (self.cur - 1) as usize;
+            // (indices outside the array only occur for the synthetic streams of the decision-half harness, which are never iterated)
+            Some(if i < toks.len() { TokenTree::of(toks, i) } else { TokenTree::Literal(Literal { idx: i as u32 }) })
+        } else { None }
     }
 }
 impl IntoIterator for TokenStream {
@@ -66,7 +100,7 @@ impl IntoIterator for TokenStream {
 }
 impl Extend<TokenTree> for TokenStream {
     fn extend<I: IntoIterator<Item = TokenTree>>(&mut self, iter: I) {
-        for t in iter { self.push_idx(t.idx); }
+        for t in iter { self.push_idx(t.idx()); }
     }
 }
 impl TokenStream {
